@@ -514,8 +514,9 @@ Definition upsert_offsets : M batch unit :=
   need (b_control b) ;;                                         (* debitED.Amount = b.Control.TotalCreditEntryDollarAmount *)
   hasD <- flip ;;                                               (* true: no debit offset needed (amount 0) *)
   hasC <- flip ;;
-  let es1 := if hasD then es else es ++ [offset_entry c0 27] in
-  let es2 := if hasC then es1 else es1 ++ [offset_entry c0 22] in
+  chk <- flip ;;                                                (* true: offset.AccountType checking, false: savings *)
+  let es1 := if hasD then es else es ++ [offset_entry c0 (if chk then 27 else 37)] in
+  let es2 := if hasC then es1 else es1 ++ [offset_entry c0 (if chk then 22 else 32)] in
   h <- ro (header_of b) ;;                                      (* b.Header.ServiceClassCode = MixedDebitsAndCredits *)
   let b' := set_header (Some (mkheader (h_sec h) Mixed)) (set_entries es2 b) in
   put b' ;;
